@@ -251,6 +251,16 @@ template <typename T> Sx e_chk(MChk<T> const& c)
     return Sx::list({Sx::sym("mc"), rs, e_gens(c), Sx::flt(c.beta()), Sx::flt(c.min_weight()), Sx::list({Sx::sym("ok"), efloats(c.channel_weights())})});
 }
 
+// multi_channel_max_difference of every result (multi-channel checkpoints only)
+template <typename T, typename C> Sx e_maxdiff(C const&) { return Sx::list({Sx::sym("maxdiff")}); }
+template <typename T> Sx e_maxdiff(MChk<T> const& c)
+{
+    Sx x = Sx::list({Sx::sym("maxdiff")});
+    for (auto const& r : c.results())
+        x.add(r.adjustment_data().empty() ? Sx::list({Sx::sym("ub"), Sx::num(71)}) : Sx::list({Sx::sym("ok"), Sx::flt(hep::multi_channel_max_difference(r))}));
+    return x;
+}
+
 template <typename T> PChk<T> reload(PChk<T> const&, std::istream& in) { return hep::make_plain_chkpt<T, script_engine>(in); }
 template <typename T> VChk<T> reload(VChk<T> const&, std::istream& in) { return hep::make_vegas_chkpt<T, script_engine>(in); }
 template <typename T> MChk<T> reload(MChk<T> const&, std::istream& in) { return hep::make_multi_channel_chkpt<T, script_engine>(in); }
@@ -476,6 +486,7 @@ template <typename T, typename C, typename Mk, typename MkMpi> Sx run_ops(Spec<T
             chk = n;
             out.add(Sx::list({Sx::sym("reload"), Sx::sym("ok")}));
         }
+        else if (o == "maxdiff") out.add(e_maxdiff<T>(chk));
         else if (o == "combine")
         {
             // hep::accumulate / chi_square_dof over the checkpoint's results (with their distributions)
@@ -523,8 +534,14 @@ template <typename T> Sx run_case(std::string const& cmd, Sx const& a)
     std::uint64_t const pos0 = num("pos", 0);
     if (Sx const* e = a.find("dists"))
         for (auto const& d : e->at(1).L_())
-            sp.dists.emplace_back(d.at(0).N_(), d.at(1).N_(), static_cast<T>(d.at(2).F_()), static_cast<T>(d.at(3).F_()),
-                static_cast<T>(d.at(4).F_()), static_cast<T>(d.at(5).F_()), d.at(6).S_());
+        {
+            T const ymin = static_cast<T>(d.at(4).F_()), ymax = static_cast<T>(d.at(5).F_());
+            // a one-dimensional binning written the way users write it (the shortcut delegates with y in [0, 1))
+            if (d.at(1).N_() == 1 && ymin == T() && !std::signbit(ymin) && ymax == T(1.0))
+                sp.dists.push_back(hep::make_dist_params<T>(d.at(0).N_(), static_cast<T>(d.at(2).F_()), static_cast<T>(d.at(3).F_()), d.at(6).S_()));
+            else
+                sp.dists.emplace_back(d.at(0).N_(), d.at(1).N_(), static_cast<T>(d.at(2).F_()), static_cast<T>(d.at(3).F_()), ymin, ymax, d.at(6).S_());
+        }
     sp.force_acc = num("acc", 0) != 0;
     Sx const& fs = a.find("f")->at(1);
     if (fs.at(0).is_sym("poly")) { sp.f.poly = true; for (auto const& p : fs.at(1).L_()) sp.f.ab.emplace_back(static_cast<T>(p.at(0).F_()), static_cast<T>(p.at(1).F_())); }
